@@ -315,6 +315,35 @@ def extract(repo):
                 raise Missing('LsmVerifier::verify')
             return len(re.findall(r'entries\.pop\(\)', body.group(1)))
         grab('lsmtkVerifierEntriesPopped', pops)
+        # the RANGE of last_removals: how many entries `verify` has dropped from its list (pop,
+        # truncate, ...) before it calls `last_removals(&entries)`: 0 = it ranges over every
+        # fragment, the newest numbered one and MANIFEST included (Blue.Verifier.laterRm)
+        def pops_before_last_removals():
+            body = re.search(r'pub fn verify\(&mut self\)(.*?)for (?:entry|\(fragment, entry\)) in entries', v, re.S)
+            if not body:
+                raise Missing('LsmVerifier::verify')
+            b = re.sub(r'//[^\n]*', '', body.group(1))
+            call = re.search(r'\blast_removals\s*\(\s*&\s*entries\s*\)', b)
+            if not call:
+                raise Missing('last_removals(&entries) in LsmVerifier::verify')
+            return len(re.findall(r'entries\s*\.\s*(?:pop|truncate|drain|split_off|remove|swap_remove|retain|clear)\s*\(', b[:call.start()]))
+        grab('lsmtkVerifierPopsBeforeLastRemovals', pops_before_last_removals)
+        # the INPUT of the orphan scan: how many entries `cleanup_orphans` drops from the list
+        # `list_mani_fragments` returns (MANIFEST is its last entry) before it scans them
+        def cleanup_entries_dropped():
+            m = re.search(r'fn cleanup_orphans\(&mut self\)[^{]*\{(.*?)\n    \}\n', t, re.S)
+            if not m:
+                raise Missing('LsmTree::cleanup_orphans')
+            b = re.sub(r'//[^\n]*', '', m.group(1))
+            lst = re.search(r'let\s+(?:mut\s+)?(\w+)\s*=\s*verifier::list_mani_fragments\(&self\.root\)\?\s*;', b)
+            if not lst:
+                raise Missing('list_mani_fragments in cleanup_orphans')
+            name = lst.group(1)
+            loop = re.search(r'for\s+\w+\s+in\s+%s\s*(?:\.into_iter\(\)|\.iter\(\))?\s*\{' % re.escape(name), b)
+            if not loop:
+                raise Missing('loop over every entry of %s in cleanup_orphans' % name)
+            return len(re.findall(r'\b%s\s*\.\s*(?:pop|truncate|drain|split_off|remove|swap_remove|retain|clear)\s*\(' % re.escape(name), b[:loop.start()]))
+        grab('lsmtkCleanupOrphansEntriesDropped', cleanup_entries_dropped)
         # 1 = compaction_finish takes a reference to an output together with its link
         grab('lsmtkCompactionPinsOutputs', lambda: 1 if re.search(r'references\s*\.\s*inc_then\(', t) else 0)
     try:
@@ -378,15 +407,42 @@ def extract(repo):
             raise Missing('read timestamp of load/range_scan: %r' % (found,))
         return found[0]
     grab('kvsReadTimestamp', kvs_read_ts)
-    def kvs_visible_advance():
+    def kvs_write_src():
         src = read(repo, 'lsmtk/src/kvs/mod.rs')
+        src = re.sub(r'//[^\n]*', '', src)
         src = re.sub(r'#\[cfg\(rescrv_blue_verif\)\]\s*(?:\{.*?\}|[^;]*;)', '', src, flags=re.S)
-        if re.search(r'while\s+!wait_guard\.is_head\(\)\s*\{\s*state\s*=\s*wait_guard\.naked_wait\(state\);\s*\}\s*state\.visible_seq_no\s*=\s*seq_no;\s*drop\(wait_guard\);', src):
+        m = re.search(r'pub fn write\(&self, mut batch: WriteBatch\) -> Result<\(\), SError> \{(.*?)\n    \}\n', src, re.S)
+        if not m:
+            raise Missing('KeyValueStore::write')
+        return m.group(1)
+    # the exit of `write` through the wait list: wait (holding the store mutex) until head, publish the
+    # writer's own number, unlink, notify the new head.  A write that failed takes the same exit in
+    # its turn and publishes nothing (repaired), or returns early with `?` (as found).
+    WAIT_HEAD = r'let\s+mut\s+state\s*=\s*self\.state\.lock\(\)\.unwrap\(\);\s*while\s+!wait_guard\.is_head\(\)\s*\{\s*state\s*=\s*wait_guard\.naked_wait\(state\);\s*\}\s*'
+    PUBLISH = r'state\.visible_seq_no\s*=\s*seq_no;\s*'
+    PUBLISH_IF_OK = r'if\s+res\.is_ok\(\)\s*\{\s*state\.visible_seq_no\s*=\s*seq_no;\s*\}\s*'
+    LEAVE = r'drop\(wait_guard\);\s*self\.wait_list\.notify_head\(\);\s*'
+    def kvs_visible_advance():
+        src = kvs_write_src()
+        if re.search(WAIT_HEAD + '(?:' + PUBLISH + '|' + PUBLISH_IF_OK + ')' + LEAVE, src):
             return 'at-wait-list-head'
-        if 'visible_seq_no' in src:
+        if 'visible_seq_no' in read(repo, 'lsmtk/src/kvs/mod.rs'):
             raise Missing('visible_seq_no is not advanced where a writer leaves the wait list')
         return 'absent'
     grab('kvsVisibleAdvance', kvs_visible_advance)
+    def kvs_failed_write_exit():
+        src = kvs_write_src()
+        body = r'let\s+mut\s+log_batch\s*=\s*sst::log::WriteBatch::default\(\);\s*for\s+entry\s+in\s+batch\.entries\.iter\(\)\s*\{\s*log_batch\.insert\(KeyValueRef::from\(entry\)\)\?;\s*\}\s*self\.poison\(log\.append\(log_batch\)\)\?;\s*self\.poison\(memtable\.write\(&mut batch\)\)'
+        drops = r'drop\(memtable\);\s*drop\(log\);\s*'
+        # repaired: the fallible part is evaluated to `res`, every write takes the one exit in its
+        # turn, only a successful one publishes, `res` is what the caller gets
+        if re.search(r'let\s+res\s*=\s*\(\|\|\s*->\s*Result<\(\),\s*SError>\s*\{\s*' + body + r'\s*\}\)\(\);\s*' + drops + WAIT_HEAD + PUBLISH_IF_OK + LEAVE + r'res\s*$', src):
+            return 'in-turn-no-publish'
+        # as found: `?` on the fallible calls drops the wait guard wherever it stands
+        if re.search(body + r'\?;\s*' + drops + WAIT_HEAD + PUBLISH + LEAVE + r'Ok\(\(\)\)\s*$', src):
+            return 'early-return-drops-guard'
+        raise Missing('exit of a failed write from the wait list: neither the early return nor the in-turn exit without publishing')
+    grab('kvsFailedWriteExit', kvs_failed_write_exit)
     grab('sync42MaxConcurrency', lambda: eval_int(const_int(read(repo, 'sync42/src/lib.rs'), 'MAX_CONCURRENCY')))
     # lsmtk scheduling options (C20): defaults of the limits and thresholds the selector reads, NUM_LEVELS
     def lsmtk_default(field):
